@@ -117,15 +117,16 @@ class C05:
         for c in self.all_cases(tier):
             if not any(g and ELEMS[flat(g)[-1]][1] in ('c', 'pc') for g in c[1]):
                 yield c
-        yield from self.wrap_cases()
+        yield from self.wrap_cases(tier)
 
-    def wrap_cases(self):
+    def wrap_cases(self, tier='thorough'):
         n = len(WRAP_WS)
+        outer = 5 if tier == 'quick' else n       # outside the delimiters: plain white space only in the quick tier
         for wi in range(len(WRAPS)):
-            for a in range(n):
+            for a in range(outer):
                 for b in range(n):
                     for c in range(n):
-                        for d in range(n):
+                        for d in range(outer):
                             # a control word glued to a following word or letter would be a different control word
                             if (WRAP_WS[a].endswith('xxx') and WRAPS[wi][0][0].isalpha()) or WRAP_WS[b].endswith('xxx') or WRAP_WS[d].endswith('xxx'):
                                 continue
